@@ -1,57 +1,85 @@
 """C15 — asynchronous results: one final outcome, callbacks once, timeouts exact.
 
-The real AsyncResult / Timeout / Connection.serve / poll_all / sync_request / async_request / timed are driven
-over a scripted fake channel and a virtual clock (rpyc.lib.time is replaced by a fake module object, nothing
-sleeps).  Every generated history is (1) judged by an oracle that evaluates the property's own statement on what
-the implementation did and (2) compared observation by observation with the extracted model/Async.v."""
-import json
+The real AsyncResult / Timeout / Connection (serve, _dispatch, poll_all, sync_request, async_request) / Channel /
+netref.syncreq / timed are driven over a scripted fake byte STREAM (under the real Channel) and a virtual clock
+(rpyc.lib.time is replaced by a fake module object, nothing sleeps).  Every generated history is (1) judged by an
+oracle that evaluates the property's own statement on what the implementation did and (2) compared observation by
+observation with the extracted model/Async.v.
+
+Dimensions of a history: how the result is created (async_request / timed / conn.sync_request / a synchronous proxy
+operation), timeout None/0/negative/positive, frames that arrive whole or in two pieces (first byte, completion), replies
+whose value is plain or needs a round trip to materialise (a proxy of an unseen class), value / ValueError / TimeoutError
+replies, duplicates and strays, unrelated requests with a dispatch duration, callbacks that record or raise, a second
+thread caught between add_callback's readiness test and its append, and caller actions in any order."""
+import json, re, queue as _queue, threading
 from harness import common as C
 
 META = {
     "level": "proof",
-    "level_text": "Theorems over ALL event histories in virtual time (props/C15.v): the outcome is the first of 'reply dispatched' and "
-                  "'expiry passed' and is final; with a value every registered callback ran exactly once, in registration order, at "
-                  "max(registration, arrival); with expiry none ever runs and a late reply changes nothing; wait raises at exactly "
-                  "max(start, expiry, end of the dispatch the waiting thread was busy with) and never before the expiry; sync_request = "
-                  "async_request with the configured timeout then value; timed = async then set_expiry.  Timeout's arithmetic and the "
-                  "control skeletons of every anchored method are regenerated from the source on every run and tied by reflexivity; "
-                  "the extracted model is compared with the real classes on generated histories. Proof is the right level: the "
-                  "property quantifies over all orderings and all timeout values.",
-    "level_note": "Trusted: Coq kernel, pygen, extraction + driver, harness (fake channel, virtual clock). Outside: rounding of real "
-                  "poll()/time.time(), multi-threaded serving (C13/C14), callbacks that raise or re-enter the result (excluded by the "
-                  "property's side condition). 'Reply arrives' means 'is dispatched by the serving thread'. set_expiry() called again "
-                  "after the expiry passed starts a new expiry by the API's own definition (relative to now); finality of 'expired' "
-                  "is stated between set_expiry calls, finality of a value unconditionally.",
+    "level_text": "Theorems over ALL event histories in virtual time (props/C15.v) about a model that includes what the code really does: "
+                  "frames visible at their first byte but received without deadline, reply values unboxed (possibly over a round trip) "
+                  "before the expiry is looked at, callbacks that raise, and a registration by a second thread split into test and append. "
+                  "Proved for every history: a value once there is final; expiry is final between set_expiry calls; the outcome is Got iff "
+                  "the reply was DECIDED (frame complete + value materialised) before the expiry; wait raises at exactly max(start, expiry, "
+                  "end of the last receive+dispatch) and never before the expiry; sync_request / proxy operations = async_request with the "
+                  "configured timeout then value; timed = async then set_expiry. The statement's own clauses hold under explicit hypotheses "
+                  "(whole frames, instantly materialised replies; isolated callbacks or none raising; atomic registration or none split) and "
+                  "are REFUTED by witness theorems where the current tree violates them (4 findings). Timeout's arithmetic and the skeletons of "
+                  "every anchored method (current or repaired form) are regenerated on every run and tied by reflexivity; the extracted model is "
+                  "compared with the real classes on generated histories.",
+    "level_note": "Trusted: Coq kernel, pygen, extraction + driver, harness (fake stream, virtual clock, the two-thread schedule is realised with a "
+                  "real second thread parked inside list.append). Outside: rounding of real poll()/time.time(); contention on the receive lock "
+                  "(C12-C14); callbacks that re-enter the result are exercised by the oracle only (not in the model); the class of a remote "
+                  "exception is not modelled (a remote TimeoutError is indistinguishable from the timeout error by type, the harness tells "
+                  "them apart by the remote traceback attribute). 'Reply arrives' = its frame is completely received. set_expiry() called "
+                  "again after the expiry passed starts a new expiry by the API's own definition (relative to now): finality of 'expired' is "
+                  "stated between set_expiry calls, finality of a value unconditionally. Findings on the current tree: "
+                  "timely-reply-discarded:decided-after-unboxing and wait:late-timeout:blocked-receiving-a-frame (no small repair), "
+                  "callbacks:aborted-by-raising-callback and callbacks:lost-in-registration-race (repair proposed).",
     "technique": "Coq proof by induction over histories with ghost dispatch/registration logs; generated Timeout functions and method "
-                 "skeletons tied by reflexivity; differential correspondence of the extracted model on a virtual clock",
+                 "skeletons tied by reflexivity; refutation witnesses by computation; differential correspondence of the extracted model on a "
+                 "virtual clock",
     "gen": ["libinit", "async_"],
     "shapes": ["libinit.*", "async_.*"],
     "models": ["async"],
     "model_files": ["Async"],
     "assumptions": [
-        "virtual time: the fake channel's poll(timeout) returns at min(next scripted arrival, now + timeout.timeleft()) exactly; a tie "
-        "between arrival and deadline is resolved by a per-case flag (both ways are generated)",
-        "callbacks only record (they do not raise and do not touch the result), as the property's side condition says",
-        "single serving thread per history (contention on the receive lock is C12-C14)",
+        "virtual time: the fake stream's poll(timeout) returns at min(first byte of the next scripted frame, now + timeout.timeleft()) "
+        "exactly; read() blocks until the scripted completion instant of the frame; a tie between arrival and deadline is resolved by "
+        "a per-case flag (both ways are generated)",
+        "one serving thread per history; the only second thread is the one registering a callback (test / append split)",
     ],
 }
 
 import rpyc
 import rpyc.lib
-from rpyc.core import brine, consts, vinegar
+from rpyc.core import brine, consts, vinegar, netref
 from rpyc.core.protocol import Connection
+from rpyc.core.channel import Channel
 from rpyc.core.async_ import AsyncResult, AsyncResultTimeout
 from rpyc.lib import Timeout
 
 BASE, TICK = 1000.0, 0.25
+K1 = "timely-reply-discarded:decided-after-unboxing"
+K2 = "wait:late-timeout:blocked-receiving-a-frame"
+F4 = "callbacks:aborted-by-raising-callback"
+F9 = "callbacks:lost-in-registration-race"
 
 
 class Hang(Exception):
-    """the fake channel was asked to block forever (no deadline, nothing scripted)"""
+    """the fake stream was asked to block forever (no deadline, nothing scripted)"""
 
 
 class Spin(Exception):
     """the code under test keeps polling at one virtual instant: a busy loop that only real time passing would end"""
+
+
+class CbError(Exception):
+    """raised by a generated callback"""
+
+    def __init__(self, cid):
+        Exception.__init__(self, cid)
+        self.cid = cid
 
 
 class Clock(object):
@@ -76,11 +104,14 @@ def to_tick(x):
 def real_timeout(t):
     if t is None:
         return None
-    return t // 4 if t % 4 == 0 and t % 8 == 0 else t * TICK   # ints now and then, floats mostly
+    return t // 4 if t % 8 == 0 else t * TICK   # ints now and then, floats mostly
 
 
-class Chan(object):
-    """scripted channel: messages become readable at their arrival tick"""
+class Stream(object):
+    """scripted byte stream under the real Channel: the first bytes of a frame become readable at its arrival tick, the
+    rest at its completion tick; what the connection writes is parsed back into messages"""
+    MAX_IO_CHUNK = 64000
+    EARLY = 3
 
     def __init__(self, clock, case):
         self.clock = clock
@@ -91,11 +122,18 @@ class Chan(object):
         self.our_seq = None
         self.conn = None
         self.res = None
-        self.n_sent = 0
         self.spin = 0
+        self.cur = None            # frame being read: [bytes, pos, early, complete_at]
+        self.last = (0, 0)         # (tick first byte seen, tick complete) of the frame read last
+        self.unbox_dur = 0
+        self.serial = 0
+        self.wbuf = b""
 
+    # ---- reading side
     def poll(self, timeout):
         now = self.clock.tick
+        if self.cur is not None:
+            return True
         a = self.script[0][0] if self.script else None
         if a is not None and a <= now:
             return True
@@ -118,26 +156,73 @@ class Chan(object):
         self.clock.tick = int(dl) if dl == int(dl) else dl
         return False
 
-    def recv(self):
-        a, kind, p, q = self.script.pop(0)
+    def _frame(self, kind, p, q, u):
         if kind == 0:
             seq = self.our_seq if self.our_seq is not None else 424242
-            if p:
-                raw = vinegar.dump(ValueError, ValueError(q), None, False, False)
-                return brine.dump((consts.MSG_EXCEPTION, seq, raw))
-            return brine.dump((consts.MSG_REPLY, seq, (consts.LABEL_VALUE, q)))
-        if kind == 1:
-            return brine.dump((consts.MSG_REQUEST, 777000 + len(self.script),
+            if p == 3:        # a reply whose payload cannot be rebuilt here (no such label): delivered to the request as its error
+                data = brine.dump((consts.MSG_REPLY, seq, (("bad", q), None)))
+            elif p:
+                cls = ValueError if p == 1 else TimeoutError
+                data = brine.dump((consts.MSG_EXCEPTION, seq, vinegar.dump(cls, cls(q), None, False, False)))
+            elif u:
+                self.serial += 1
+                self.unbox_dur = u
+                data = brine.dump((consts.MSG_REPLY, seq, (consts.LABEL_REMOTE_REF, ("c15.Slow", q, 5000 + self.serial))))
+            else:
+                data = brine.dump((consts.MSG_REPLY, seq, (consts.LABEL_VALUE, q)))
+        elif kind == 1:
+            data = brine.dump((consts.MSG_REQUEST, 777000 + len(self.script),
                                (consts.HANDLE_PING, (consts.LABEL_TUPLE, ((consts.LABEL_VALUE, b"D%d" % max(0, p)),)))))
-        return brine.dump((consts.MSG_REPLY, 999999, (consts.LABEL_VALUE, 0)))
+        elif kind == 3:        # the peer's answer to the INSPECT request that unboxing a slow reply issued
+            data = brine.dump((consts.MSG_REPLY, p, (consts.LABEL_TUPLE, ())))
+        else:
+            data = brine.dump((consts.MSG_REPLY, 999999, (consts.LABEL_VALUE, 0)))
+        return Channel.FRAME_HEADER.pack(len(data), 0) + data + Channel.FLUSHER
 
-    def send(self, data):
-        self.n_sent += 1
-        msg, seq, args = brine.load(data)
+    def read(self, count):
+        if self.cur is None:
+            if not self.script:
+                raise Hang()
+            a, c, kind, p, q, u = self.script.pop(0)
+            if self.clock.tick < a:
+                self.clock.tick = a
+            seen = self.clock.tick
+            buf = self._frame(kind, p, q, u)
+            self.cur = [buf, 0, (self.EARLY if c > seen else len(buf)), c, seen]
+        buf, pos, early, c, seen = self.cur
+        if pos + count > early and self.clock.tick < c:
+            self.clock.tick = c           # blocks, without any deadline, until the rest of the frame is there
+        out = buf[pos:pos + count]
+        self.cur[1] = pos + count
+        if self.cur[1] >= len(buf):
+            self.last = (seen, self.clock.tick)
+            self.cur = None
+        return out
+
+    # ---- writing side
+    def write(self, data):
+        self.wbuf += data
+        hs = Channel.FRAME_HEADER.size
+        while len(self.wbuf) >= hs:
+            length, comp = Channel.FRAME_HEADER.unpack(self.wbuf[:hs])
+            if len(self.wbuf) < hs + length + 1:
+                break
+            body = self.wbuf[hs:hs + length]
+            self.wbuf = self.wbuf[hs + length + 1:]
+            if comp:
+                import zlib
+                body = zlib.decompress(body)
+            self._sent(brine.load(body))
+
+    def _sent(self, m):
+        msg, seq, args = m
         if msg == consts.MSG_REQUEST and args[0] in (consts.HANDLE_PING, consts.HANDLE_CALL) and self.our_seq is None:
             self.our_seq = seq
             self.res = self.conn._request_callbacks.get(seq)
             self.clock.tick += self.send_dur          # sending takes time; the expiry is armed afterwards
+        elif msg == consts.MSG_REQUEST and args[0] == consts.HANDLE_INSPECT:
+            t = self.clock.tick + self.unbox_dur      # the peer answers the class inquiry unbox_dur ticks later
+            self.script.insert(0, [t, t, 3, seq, 0, 0])
         elif msg == consts.MSG_REPLY and isinstance(args[1], bytes) and args[1][:1] == b"D":
             self.clock.tick += int(args[1][1:])       # the unrelated request kept this thread busy
 
@@ -152,10 +237,24 @@ def opt_sx(t):
     return [] if t is None else [t]
 
 
-def case_sx(case):
-    return ["hist", case["mode"], int(case["tie"]), case["t0"], opt_sx(case["timeout"]), case["send_dur"],
-            [[a, k, int(p), q] for a, k, p, q in case["queue"]],
-            [[k, (opt_sx(p) if k in (2, 8) else (p or 0))] for k, p in case["actions"]]]
+def gen_flags():
+    """the two generated facts the model is parameterised with (coq/gen/Gen_async_.v of this run)"""
+    try:
+        txt = open(C.COQ + "/gen/Gen_async_.v").read()
+    except OSError:
+        return 0, 0
+    global DECODE_FAILURE_DELIVERED
+    DECODE_FAILURE_DELIVERED = "response_decode_failure_delivered : bool := true" in txt
+    return int("callbacks_isolated : bool := true" in txt), int("add_callback_atomic : bool := true" in txt)
+
+
+DECODE_FAILURE_DELIVERED = False
+
+
+def case_sx(case, flags):
+    return ["hist", [case["mode"], int(case["tie"]), flags[0], flags[1]], case["t0"], opt_sx(case["timeout"]), case["send_dur"],
+            [[a, c, k, (int(p != 0) if k == 0 else int(p)), q, u] for a, c, k, p, q, u in case["queue"]],
+            [[k, (opt_sx(p) if k in (2, 8) else (p or 0)), int(bool(r))] for k, p, r in case["actions"]]]
 
 
 def canon_model(out):
@@ -167,45 +266,123 @@ def canon_model(out):
                    "finite": bool(fin_), "tmax": tmax, "registered": bool(reg), "queue": qlen, "now": now}
 
 
+BAD_LABEL = re.compile(r"^invalid label \('bad', (-?\d+)\)$")
+
+
+def exc_value(e):
+    """the number an exception stands for: a remote exception carries it, the local 'cannot rebuild this payload' error names it"""
+    a = e.args[0] if e.args else None
+    m = BAD_LABEL.match(a) if isinstance(a, str) else None
+    return int(m.group(1)) if m else a
+
+
+def value_of(obj):
+    """what a stored / returned reply value stands for in the model"""
+    if isinstance(obj, netref.BaseNetref):
+        return object.__getattribute__(obj, "____id_pack__")[1]
+    if isinstance(obj, Exception):
+        return exc_value(obj)
+    return obj or 0
+
+
+class HookList(list):
+    """res._callbacks for a split registration: the registering thread parks inside append"""
+
+    def __init__(self, items, run):
+        list.__init__(self, items)
+        self.run = run
+
+    def append(self, f):
+        run = self.run
+        if run.b_thread is not None and threading.current_thread() is run.b_thread:
+            run.b_q.put("at-append")
+            run.b_go.wait(60)
+        list.append(self, f)
+
+
+def _held(lock):
+    for nm in ("locked", "_is_owned"):
+        f = getattr(lock, nm, None)
+        if f is not None:
+            try:
+                if f():
+                    return True
+            except Exception:
+                pass
+    return False
+
+
+def probe_atomic():
+    """does add_callback hold a lock of the result while it appends?  (then its test and append cannot be separated)"""
+    res = AsyncResult(None)
+    seen = []
+
+    class Probe(list):
+        def append(self, f):
+            seen.append(any(_held(getattr(res, s, None)) for s in getattr(type(res), "__slots__", ())
+                            if hasattr(getattr(res, s, None), "acquire")))
+            list.append(self, f)
+    try:
+        res._callbacks = Probe()
+        res.add_callback(lambda r: None)
+    except Exception:
+        return True
+    return (not seen) or bool(seen[0])
+
+
 class Run(object):
     """one history against the real classes"""
 
-    def __init__(self, case):
+    def __init__(self, case, atomic_impl=False):
         self.case = case
+        self.atomic_impl = atomic_impl
         self.clock = Clock(case["t0"])
         self.saved_time = rpyc.lib.time
         rpyc.lib.time = self.clock
-        self.chan = Chan(self.clock, case)
-        self.conn = Connection(rpyc.VoidService(), self.chan, {})
+        self.chan = Stream(self.clock, case)
+        self.conn = Connection(rpyc.VoidService(), Channel(self.chan), {})
         self.chan.conn = self.conn
-        self.log = []           # callback invocations [id, tick]
-        self.regs = []          # registrations [id, tick]
-        self.disp = []          # dispatches [tick at receipt, tick at end, kind, was_registered_reply]
+        self.log = []           # callback invocations [id, tick, right argument]
+        self.regs = []          # registrations [id, tick, raises]
+        self.disp = []          # dispatches [tick first byte seen, tick complete, tick at end, kind, registered reply?]
         self.res = None
         self.proxy = None
+        self.pend = None        # split registration in flight: (id, raises)
+        self.b_thread = None
+        self.b_q = _queue.Queue()
+        self.b_go = threading.Event()
+        self.race = None        # id of a registration during whose split the result became ready
         orig = self.conn._dispatch
 
         def dispatch(data):
-            t0 = self.clock.tick
+            seen, complete = self.chan.last
             msg, seq, _ = brine.load(data)
             ours = msg in (consts.MSG_REPLY, consts.MSG_EXCEPTION) and seq == self.chan.our_seq \
                 and seq in self.conn._request_callbacks
-            kind = 1 if msg == consts.MSG_REQUEST else (0 if seq == self.chan.our_seq else 2)
-            orig(data)
-            self.disp.append([t0, self.clock.tick, kind, ours])
+            kind = 1 if msg == consts.MSG_REQUEST else (0 if seq == self.chan.our_seq else
+                                                        3 if seq not in (999999, 424242) else 2)
+            try:
+                orig(data)
+            finally:
+                self.disp.append([seen, complete, self.clock.tick, kind, ours])
         self.conn._dispatch = dispatch
 
     def close(self):
         try:
+            self.b_go.set()
+            if self.b_thread is not None:
+                self.b_thread.join(60)
             self.proxy = None
             self.chan.script = []
             self.conn.close()
         finally:
             rpyc.lib.time = self.saved_time
 
-    def cb(self, c):
+    def cb(self, c, raises):
         def f(r):
             self.log.append([c, self.clock.tick, r is self.res])
+            if raises:
+                raise CbError(c)
         f.cid = c
         return f
 
@@ -217,51 +394,120 @@ class Run(object):
         elif case["mode"] == 2:
             self.proxy = conn._unbox((consts.LABEL_REMOTE_REF, ("builtins.type", 4321, 8765)))
             self.res = rpyc.timed(self.proxy, t)(1)
+        elif case["mode"] == 3:
+            conn._config["sync_request_timeout"] = t
+            self.proxy = conn._unbox((consts.LABEL_REMOTE_REF, ("builtins.type", 4321, 8765)))
+            return self.observe(lambda: [2, value_of(self.proxy(1))])     # BaseNetref.__call__ -> netref.syncreq
         else:
             conn._config["sync_request_timeout"] = t
-            return self.observe(lambda: [2, conn.sync_request(consts.HANDLE_PING, b"x")])
+            return self.observe(lambda: [2, value_of(conn.sync_request(consts.HANDLE_PING, b"x"))])
         return None
 
     def observe(self, f):
         try:
             return f()
-        except AsyncResultTimeout:
-            return [4]
+        except CbError as e:
+            return [7, e.cid]
         except Hang:
             return [5]
-        except ValueError as e:
-            return [3, e.args[0]]
+        except (ValueError, TimeoutError) as e:
+            if hasattr(e, "_remote_tb"):          # the reply's own exception (its class may well be TimeoutError)
+                return [3, e.args[0]]
+            if isinstance(e, ValueError) and isinstance(exc_value(e), int) and e is getattr(self.res or self.chan.res, "_obj", None):
+                return [3, exc_value(e)]          # the error met while rebuilding the reply, delivered as the request's exception
+            if isinstance(e, AsyncResultTimeout):
+                return [4]
+            raise
 
-    def act(self, k, p):
+    def act(self, k, p, r):
         res, conn = self.res, self.conn
         if k == 0:
             self.clock.tick += p
             return [0]
         if k == 1:
-            self.regs.append([p, self.clock.tick])
-            res.add_callback(self.cb(p))
-            return [0]
+            self.regs.append([p, self.clock.tick, bool(r)])
+            return self.observe(lambda: [0] if res.add_callback(self.cb(p, r)) is None else [99])
         if k == 2:
             res.set_expiry(real_timeout(p))
             return [0]
         if k == 3:
-            return [1, int(bool(res.ready))]
+            return self.observe(lambda: [1, int(bool(res.ready))])
         if k == 4:
-            return [1, int(bool(res.error))]
+            return self.observe(lambda: [1, int(bool(res.error))])
         if k == 5:
             return [1, int(bool(res.expired))]
         if k == 6:
-            return self.observe(lambda: [2, res.value])
+            return self.observe(lambda: [2, value_of(res.value)])
         if k == 7:
             return self.observe(lambda: [0] if res.wait() is None else [99])
-        return self.observe(lambda: [1, int(bool(conn.serve(real_timeout(p))))])
+        if k == 8:
+            return self.observe(lambda: [1, int(bool(conn.serve(real_timeout(p))))])
+        if k == 9:
+            return self.split_test(p, bool(r))
+        return self.split_commit()
+
+    def split_test(self, c, raises):
+        """another thread enters add_callback now; if it takes the append branch it is parked just before the append"""
+        res = self.res
+        if self.pend is not None:
+            return [0]
+        if self.atomic_impl:
+            self.pend = (c, raises)
+            return [0]
+        if not isinstance(res._callbacks, HookList):
+            res._callbacks = HookList(res._callbacks, self)
+        f = self.cb(c, raises)
+        self.b_go.clear()
+
+        def body():
+            try:
+                res.add_callback(f)
+                self.b_q.put("done")
+            except CbError as e:
+                self.b_q.put(("exc", e.cid))
+            except BaseException as e:          # pragma: no cover
+                self.b_q.put(("fail", repr(e)))
+        t0 = self.clock.tick
+        self.b_thread = threading.Thread(target=body, daemon=True)
+        self.b_thread.start()
+        what = self.b_q.get(timeout=60)
+        if what == "at-append":
+            self.pend = (c, raises)
+            return [0]
+        self.b_thread.join(60)
+        self.b_thread = None
+        self.regs.append([c, t0, raises])
+        if what == "done":
+            return [0]
+        if what[0] == "exc":
+            return [7, what[1]]
+        raise RuntimeError("C15 split registration: " + str(what))
+
+    def split_commit(self):
+        if self.pend is None:
+            return [0]
+        c, raises = self.pend
+        self.pend = None
+        self.regs.append([c, self.clock.tick, raises])
+        if self.atomic_impl:
+            return self.observe(lambda: [0] if self.res.add_callback(self.cb(c, raises)) is None else [99])
+        if self.res._is_ready:
+            self.race = c            # the result became ready between the test and the append
+        self.b_go.set()
+        what = self.b_q.get(timeout=60)
+        self.b_thread.join(60)
+        self.b_thread = None
+        if what == "done":
+            return [0]
+        if what[0] == "exc":
+            return [7, what[1]]
+        raise RuntimeError("C15 split registration: " + str(what))
 
     def final(self):
         res = self.res if self.res is not None else self.chan.res
         ttl = res._ttl
         return {"log": [[c, t] for c, t, _ in self.log], "ready": bool(res._is_ready), "is_exc": bool(res._is_exc),
-                "obj": (res._obj.args[0] if isinstance(res._obj, Exception) else (res._obj or 0)),
-                "callbacks": [getattr(f, "cid", -1) for f in res._callbacks],
+                "obj": value_of(res._obj), "callbacks": [getattr(f, "cid", -1) for f in res._callbacks],
                 "finite": bool(ttl.finite), "tmax": to_tick(ttl.tmax) if ttl.finite else 0,
                 "registered": self.chan.our_seq in self.conn._request_callbacks, "queue": len(self.chan.script),
                 "now": self.clock.tick}
@@ -272,16 +518,29 @@ def finite_of(t):
     return t is not None and t >= 0
 
 
+ACT_NAMES = ["advance", "add_callback", "set_expiry", "ready", "error", "expired", "value", "wait", "serve",
+             "add_callback:test(other thread)", "add_callback:append(other thread)"]
+
+
 class Oracle(object):
-    """the property's statement, evaluated on what the implementation did (no model involved)"""
+    """the property's statement, evaluated on what the implementation did (no model involved).
+    A reply ARRIVES when its frame is completely received; its value is available when the dispatch ends."""
 
     def __init__(self, run, report):
-        self.r, self.report = run, report
+        self.r, self._report = run, report
         self.tmax = None            # tick of the current expiry, None = never
-        self.got = None             # (e, v, tick) once the reply was dispatched before the expiry
+        self.got = None             # tick at which the accepted reply's dispatch ended
         self.reply_seen = False
         self.prev = "pending"
         self.n_disp = 0
+        self.root = None            # a finding already identified in this history: later symptoms carry its signature
+        self.k1 = False
+
+    def report(self, sig, what, observed, expected, where):
+        if self.root is None and self.k1 and sig in ("timely-reply-lost", "wait:timeout-despite-timely-reply", "query:ready-wrong",
+                                                     "query:expired-wrong", "query:error-wrong", "wait:late-timeout"):
+            self.root = K1
+        self._report(self.root or sig, what, observed, expected, where)
 
     def arm(self, t):
         self.tmax = self.r.clock.tick + t if finite_of(t) else None
@@ -291,13 +550,14 @@ class Oracle(object):
 
     def absorb_dispatches(self):
         """update the expected outcome from the dispatches the implementation performed since the last call"""
-        new = self.r.disp[self.n_disp:]
+        new = [d for d in self.r.disp[self.n_disp:] if d[3] != 3]      # answers to nested class inquiries belong to the reply's dispatch
         self.n_disp = len(self.r.disp)
-        for t0, t1, kind, ours in new:
+        for seen, complete, end, kind, ours in new:
             if ours and not self.reply_seen:
                 self.reply_seen = True
-                if self.got is None and not (self.tmax is not None and t0 >= self.tmax):
-                    self.got = t0
+                if self.got is None and not (self.tmax is not None and complete >= self.tmax):
+                    self.got = end
+                    self.k1 = self.tmax is not None and end >= self.tmax   # arrived in time, value materialised only after the expiry
         return new
 
     def expected(self):
@@ -311,19 +571,33 @@ class Oracle(object):
         st = "got" if res._is_ready else ("expired" if res.expired else "pending")
         if st != exp:
             if exp == "expired" and st == "got":
-                self.report("late-reply-accepted", "a reply dispatched at or after the expiry was accepted", st, exp, where)
+                self.report("late-reply-accepted", "a reply that arrived at or after the expiry was accepted", st, exp, where)
             elif exp == "got" and st != "got":
-                self.report("timely-reply-lost", "a reply dispatched before the expiry did not make the result ready", st, exp, where)
+                self.report("timely-reply-lost", "a reply that arrived before the expiry did not make the result ready", st, exp, where)
             else:
                 self.report("outcome-wrong:%s-instead-of-%s" % (st, exp), "outcome differs from first-of(reply, expiry)", st, exp, where)
-        # finality
         if self.prev == "got" and st != "got":
             self.report("final:value-lost", "a result that had its value lost it", st, "got", where)
         # callbacks
         ids = [[c, t] for c, t, _ in r.log]
         if st == "got" and exp == "got":
-            want = [[c, max(t, self.got)] for c, t in r.regs]
+            want = [[c, max(t, self.got)] for c, t, _ in r.regs]
             if ids != want:
+                if self.root is None:
+                    have = [c for c, _ in ids]
+                    missing = []
+                    for c, _ in want:
+                        if c in have:
+                            have.remove(c)
+                        else:
+                            missing.append(c)
+                    pending = [x for x in r.regs if x[1] <= self.got]
+                    idx = next((i for i, x in enumerate(pending) if x[2]), None)
+                    after_raiser = [x[0] for x in pending[idx + 1:] if x[0] != r.race] if idx is not None else []
+                    if any(c in after_raiser for c in missing):
+                        self.root = F4        # a raising callback was waiting at the arrival and the ones behind it never ran
+                    elif r.race is not None and r.race in missing:
+                        self.root = F9        # registered by a thread that had tested readiness before the arrival and appended after it
                 sig = "callbacks:" + ("missing" if len(ids) < len(want) else "extra" if len(ids) > len(want) else
                                       "order" if sorted(ids) == sorted(want) else "time")
                 self.report(sig, "callback log is not the registration sequence, each once, at max(registration, arrival)", ids, want, where)
@@ -334,27 +608,42 @@ class Oracle(object):
         self.prev = st
         return st
 
+    def late_wait(self, t0, T, new, where):
+        """wait raised the timeout error at T > max(t0, expiry): only being busy serving a request excuses that"""
+        tmax = self.tmax
+        last = new[-1] if new else None
+        if last is not None and last[2] == T and last[1] > max(last[0], tmax):
+            if self.root is None:
+                self.root = K2          # at the expiry instant the thread sat in recv() waiting for the rest of a frame
+        elif last is not None and last[2] == T and last[3] == 0 and last[2] > last[1]:
+            if self.root is None:
+                self.root = K1
+        elif last is not None and last[2] == T and last[3] == 1 and last[0] <= tmax:
+            return                      # busy serving a request that arrived by the expiry
+        self.report("wait:late-timeout", "wait raised the timeout error later than the expiry instant without being busy serving a request",
+                    T, max(t0, tmax), where)
+
 
 def canon_obs(o):
     return [int(x) if isinstance(x, bool) else x for x in o]
 
 
-def impl_run(case, report=None, note=None):
+def reply_value(m):
+    return [int(m[3] != 0), m[4]]
+
+
+def impl_run(case, report=None, note=None, atomic_impl=False):
     """returns (trace, final) in the model's shape; evaluates the oracle when report is given"""
-    r = Run(case)
+    r = Run(case, atomic_impl)
     try:
         orc = Oracle(r, report) if report else None
         trace = []
-        first = None
         t_before = r.clock.tick
-        if case["mode"] == 1:
-            if orc:
-                # the expiry of a synchronous request is armed right after sending, with the configured timeout
-                pass
+        if case["mode"] in (1, 3):
             first = r.start()
             trace.append([canon_obs(first), r.clock.tick])
             if orc:
-                sync_oracle(case, first, r, report)
+                sync_oracle(case, first, r, report, atomic_impl)
             return trace, r.final()
         r.start()
         if orc:
@@ -367,10 +656,11 @@ def impl_run(case, report=None, note=None):
             if got != orc.tmax:
                 report("expiry-armed-wrong", "the expiry armed by the request is not 'clock after sending + timeout'", got, orc.tmax, "start")
             orc.check_state("start")
-        for i, (k, p) in enumerate(case["actions"]):
+        for i, (k, p, rz) in enumerate(case["actions"]):
             t0 = r.clock.tick
             before = orc.expected() if orc else None
-            o = canon_obs(r.act(k, p))
+            n_log = len(r.log)
+            o = canon_obs(r.act(k, p, rz))
             trace.append([o, r.clock.tick])
             if not orc:
                 continue
@@ -383,95 +673,83 @@ def impl_run(case, report=None, note=None):
             after = orc.expected()
             T = r.clock.tick
             res = r.res
-            if k in (0, 1, 2, 5) and (new or (k != 0 and T != t0)):
-                report("passive-call-served", "a call that must not serve the connection or take time did", [new, T - t0], [[], 0], where)
-            if k == 5 and o != [1, int(before == "expired")]:
-                report("query:expired-wrong", "expired query disagrees with first-of(reply, expiry)", o, [1, int(before == "expired")], where)
-            if k == 3:
+            busy_end = max([t0] + [d[2] for d in new])
+            if o[0] == 7:
+                # a callback's exception came out of this call: it must have run during it; the result has its value
+                if not any(c == o[1] for c, _, _ in r.log[n_log:]):
+                    orc.report("callback-exception:from-nowhere", "a call raised the exception of a callback that did not run during it", o, None, where)
+            elif k == 5 and o != [1, int(before == "expired")]:
+                orc.report("query:expired-wrong", "expired query disagrees with first-of(reply, expiry)", o, [1, int(before == "expired")], where)
+            elif k == 3:
                 want = [1, int(after == "got")]
                 if o != want:
-                    report("query:ready-wrong", "ready query disagrees with first-of(reply, expiry)", o, want, where)
-                if before != "pending" and (new or T != t0):
-                    report("query:ready-served-after-decision", "ready served the connection although the outcome was decided", new, [], where)
-            if k == 4:
+                    orc.report("query:ready-wrong", "ready query disagrees with first-of(reply, expiry)", o, want, where)
+            elif k == 4:
                 want = [1, int(after == "got" and bool(res._is_exc))]
                 if o != want:
-                    report("query:error-wrong", "error query disagrees with the outcome", o, want, where)
-            if k in (6, 7):
+                    orc.report("query:error-wrong", "error query disagrees with the outcome", o, want, where)
+            elif k in (6, 7):
+                val = [0] if k == 7 else ([3, value_of(res._obj)] if res._is_exc else [2, value_of(res._obj)])
                 if before == "got":
-                    want = [0] if k == 7 else ([3, res._obj.args[0]] if res._is_exc else [2, res._obj])
-                    if o != want or T != t0 or new:
-                        report("wait:value-not-available-at-once", "wait/value on a ready result did not return its value immediately",
-                               [o, T - t0], [want, 0], where)
+                    if o != val or T != busy_end:
+                        orc.report("wait:value-not-available", "wait/value on a ready result did not return its value without waiting",
+                                   [o, T - t0], [val, busy_end - t0], where)
                 elif before == "expired":
-                    if o != [4] or T != t0 or new:
-                        report("wait:expired-not-raised-at-once", "wait/value on an expired result did not raise the timeout error immediately",
-                               [o, T - t0], [[4], 0], where)
+                    if o != [4] or T != busy_end:
+                        orc.report("wait:expired-not-raised-at-once", "wait/value on an expired result did not raise the timeout error without waiting",
+                                   [o, T - t0], [[4], busy_end - t0], where)
                 else:
                     tmax = orc.tmax
                     if o == [4]:
                         if after == "got":
-                            report("wait:timeout-despite-timely-reply", "wait raised the timeout error although the reply was dispatched before the expiry", o, "value", where)
-                        if tmax is None:
-                            report("wait:timeout-without-expiry", "wait raised the timeout error although no finite expiry is set", o, "wait", where)
+                            orc.report("wait:timeout-despite-timely-reply", "wait raised the timeout error although the reply arrived before the expiry", o, "value", where)
+                        elif tmax is None:
+                            orc.report("wait:timeout-without-expiry", "wait raised the timeout error although no finite expiry is set", o, "wait", where)
                         elif T < tmax:
-                            report("wait:early-timeout", "wait raised the timeout error before the expiry instant", T, tmax, where)
-                        else:
-                            busy_end = new[-1][1] if new else t0
-                            want_T = max(t0, tmax, busy_end)
-                            if T != want_T:
-                                report("wait:late-timeout", "wait raised the timeout error later than the expiry instant without being busy serving",
-                                       T, want_T, where)
-                            if T > max(t0, tmax) and not (new and new[-1][2] == 1 and new[-1][0] <= tmax and new[-1][1] == T):
-                                report("wait:late-timeout", "wait raised the timeout error later than the expiry instant without being busy serving",
-                                       T, max(t0, tmax), where)
-                            if any(d[0] > tmax for d in new):
-                                report("wait:served-after-expiry", "wait kept serving after the expiry instant", new, tmax, where)
+                            orc.report("wait:early-timeout", "wait raised the timeout error before the expiry instant", T, tmax, where)
+                        elif T != max(t0, tmax, busy_end):
+                            orc.report("wait:late-timeout", "wait raised the timeout error later than the expiry instant without being busy",
+                                       T, max(t0, tmax, busy_end), where)
+                        elif T > max(t0, tmax):
+                            orc.late_wait(t0, T, new, where)
                     elif o == [5]:
                         if tmax is not None or r.chan.script:
-                            report("wait:blocked-forever", "wait blocked with a finite expiry or with messages still to come", o, "return/raise", where)
+                            orc.report("wait:blocked-forever", "wait blocked with a finite expiry or with messages still to come", o, "return/raise", where)
                     else:
                         if after != "got":
-                            report("wait:returned-without-reply", "wait/value returned although no reply was accepted", o, after, where)
-                        else:
-                            want = [0] if k == 7 else ([3, res._obj.args[0]] if res._is_exc else [2, res._obj])
-                            if o != want:
-                                report("wait:wrong-value", "value returned something else than the reply", o, want, where)
-                            if T != new[-1][1] or not new[-1][3]:
-                                report("wait:returned-late", "wait did not return when the reply had been dispatched", T, new[-1][1], where)
+                            orc.report("wait:returned-without-reply", "wait/value returned although no reply was accepted", o, after, where)
+                        elif o != val:
+                            orc.report("wait:wrong-value", "value returned something else than the reply", o, val, where)
+                        elif T != new[-1][2] or not new[-1][4]:
+                            orc.report("wait:returned-late", "wait did not return when the reply had been dispatched", T, new[-1][2], where)
             st = orc.check_state(where)
             if st == "got":
-                msgs = [m for m in case["queue"] if m[1] == 0]
-                if msgs:
-                    first_reply = msgs[0]
-                    if [int(bool(res._is_exc)), (res._obj.args[0] if res._is_exc else res._obj)] != [int(bool(first_reply[2])), first_reply[3]]:
-                        report("final:value-changed", "the value is not the one of the (first) reply", repr(res._obj), first_reply, where)
+                msgs = [m for m in case["queue"] if m[2] == 0]
+                if msgs and [int(bool(res._is_exc)), value_of(res._obj)] != reply_value(msgs[0]):
+                    orc.report("final:value-changed", "the value is not the one of the (first) reply", repr(res._obj), msgs[0], where)
         return trace, r.final()
     finally:
         r.close()
 
 
-ACT_NAMES = ["advance", "add_callback", "set_expiry", "ready", "error", "expired", "value", "wait", "serve"]
-
-
-def sync_oracle(case, first, r, report):
-    """a synchronous request behaves as async_request(timeout=configured).value"""
-    twin = dict(case, mode=0, actions=[[6, None]])
-    tr2, fin2 = impl_run(twin)
+def sync_oracle(case, first, r, report, atomic_impl):
+    """a synchronous request / proxy operation behaves as async_request(timeout=configured).value"""
+    twin = dict(case, mode=0, actions=[[6, None, 0]])
+    tr2, fin2 = impl_run(twin, atomic_impl=atomic_impl)
     mine = [canon_obs(first), r.clock.tick]
+    name = "sync_request" if case["mode"] == 1 else "proxy operation (netref.syncreq)"
     if tr2[0] != mine:
-        report("sync-differs-from-async", "sync_request does not behave as async_request with the configured timeout followed by .value",
-               mine, tr2[0], "sync_request")
-    # and independently: a configured finite timeout with no timely reply must raise exactly at the expiry
+        report("sync-differs-from-async", "%s does not behave as async_request with the configured timeout followed by .value" % name,
+               mine, tr2[0], name)
     t = case["timeout"]
     if finite_of(t):
         tmax = case["t0"] + case["send_dur"] + t
-        timely = [d for d in r.disp if d[3] and d[0] < tmax]
+        timely = [d for d in r.disp if d[4] and d[1] < tmax]
         if first == [4] and r.clock.tick < tmax:
-            report("wait:early-timeout", "sync_request raised the timeout error before the configured expiry", r.clock.tick, tmax, "sync_request")
+            report("wait:early-timeout", "%s raised the timeout error before the configured expiry" % name, r.clock.tick, tmax, name)
         if first != [4] and not timely:
-            report("sync:timeout-not-applied", "sync_request returned/blocked although no reply was dispatched before the configured expiry",
-                   first, [4], "sync_request")
+            report("sync:timeout-not-applied", "%s returned/blocked although no reply arrived before the configured expiry" % name,
+                   first, [4], name)
 
 
 # ---------------------------------------------------------------------------------------------------- generation
@@ -489,7 +767,7 @@ def gen_timeout(r):
 
 def gen_case(r, max_actions):
     t0 = r.choice([0, 0, 3, 17, 100])
-    mode = r.choice([0, 0, 0, 0, 2, 2, 1])
+    mode = r.choice([0, 0, 0, 0, 0, 2, 2, 1, 3])
     timeout = gen_timeout(r)
     send_dur = r.choice([0, 0, 0, 1, 3])
     tmax = t0 + send_dur + timeout if finite_of(timeout) else t0 + send_dur + 6
@@ -497,60 +775,102 @@ def gen_case(r, max_actions):
     have_reply = False
     for _ in range(r.choice([0, 1, 1, 2, 2, 3, 4, 6])):
         a = max(t0 - 1, tmax + r.choice([-4, -3, -2, -1, -1, 0, 0, 0, 1, 1, 2, 5]))
+        cpl = a + (r.choice([1, 2, 3, 6]) if r.random() < 0.10 else 0)
         c = r.random()
         if c < (0.25 if have_reply else 0.6):
-            queue.append([a, 0, int(r.random() < 0.3), r.choice([0, 1, 7, -5, 123456789])])
+            p = r.choice([0, 0, 0, 0, 0, 0, 1, 1, 2, 3])
+            u = r.choice([1, 2, 3, 6]) if (p == 0 and mode in (0, 2) and r.random() < 0.15) else 0
+            queue.append([a, cpl, 0, p, r.choice([0, 1, 7, -5, 123456789]), u])
             have_reply = True
         elif c < 0.9:
-            queue.append([a, 1, r.choice([0, 1, 1, 2, 3, 7]), 0])
+            queue.append([a, cpl, 1, r.choice([0, 1, 1, 2, 3, 7]), 0, 0])
         else:
-            queue.append([a, 2, 0, 0])
+            queue.append([a, cpl, 2, 0, 0, 0])
     if r.random() < 0.93:
         queue.sort(key=lambda m: m[0])
     actions = []
-    if mode != 1:
+    if mode in (0, 2):
         n = r.randint(1, max_actions)
         now_est = t0 + send_dur
         cid = 0
+        commit_in = None
         for _ in range(n):
+            if commit_in is not None:
+                commit_in -= 1
+                if commit_in < 0:
+                    actions.append([10, None, 0])
+                    commit_in = None
+                    continue
             c = r.random()
             if c < 0.22:
                 d = r.choice([0, 1, 1, 2, 3, max(0, tmax - now_est), max(0, tmax - now_est - 1), max(0, tmax - now_est + 1)])
-                actions.append([0, d])
+                actions.append([0, d, 0])
                 now_est += d
-            elif c < 0.40:
+            elif c < 0.37:
                 cid += 1
-                actions.append([1, cid if r.random() < 0.9 else 1])
-            elif c < 0.47:
+                actions.append([1, cid if r.random() < 0.9 else 1, int(r.random() < 0.15)])
+            elif c < 0.42:
+                cid += 1
+                actions.append([9, cid, int(r.random() < 0.1)])
+                if commit_in is None:
+                    commit_in = r.choice([0, 1, 1, 2, 3])
+            elif c < 0.48:
                 t = gen_timeout(r)
-                actions.append([2, t])
+                actions.append([2, t, 0])
                 if finite_of(t):
                     tmax = now_est + t
             elif c < 0.57:
-                actions.append([3, None])
+                actions.append([3, None, 0])
             elif c < 0.64:
-                actions.append([4, None])
+                actions.append([4, None, 0])
             elif c < 0.74:
-                actions.append([5, None])
+                actions.append([5, None, 0])
             elif c < 0.82:
-                actions.append([6, None])
+                actions.append([6, None, 0])
             elif c < 0.92:
-                actions.append([7, None])
+                actions.append([7, None, 0])
             else:
-                actions.append([8, r.choice([0, 0, 1, 2, 5, -1, None])])
+                actions.append([8, r.choice([0, 0, 1, 2, 5, -1, None]), 0])
+        if commit_in is not None or r.random() < 0.02:
+            actions.append([10, None, 0])
     return {"mode": mode, "tie": int(r.random() < 0.5), "t0": t0, "timeout": timeout, "send_dur": send_dur,
             "queue": queue, "actions": actions}
 
 
+def directed_cases():
+    """the four findings and their neighbours, always present"""
+    A = lambda *acts: [list(a) for a in acts]
+    base = {"mode": 0, "tie": 0, "t0": 0, "send_dur": 0}
+    out = []
+    for u in (0, 1, 3):
+        for a in (2, 4, 5):                      # expiry 5: slow reply received at a, value materialised at a+u
+            out.append(dict(base, timeout=5, queue=[[a, a, 0, 0, 42, u]], actions=A([1, 1, 0], [7, None, 0], [5, None, 0], [3, None, 0])))
+    for a, c in ((1, 9), (4, 7), (4, 4), (6, 9)):  # expiry 5: a frame whose first byte is there at a, complete at c
+        for kind in (2, 1, 0):
+            out.append(dict(base, timeout=5, queue=[[a, c, kind, 0, 7, 0]], actions=A([7, None, 0], [5, None, 0], [8, 0, 0], [3, None, 0])))
+    for rz in ((1, 0, 0), (0, 1, 0), (0, 0, 1), (1, 1, 0), (0, 0, 0)):   # raising callbacks before / after the arrival
+        out.append(dict(base, timeout=40, queue=[[3, 3, 0, 0, 42, 0]],
+                        actions=A([1, 1, rz[0]], [1, 2, rz[1]], [7, None, 0], [1, 3, rz[2]], [6, None, 0], [1, 4, 0], [3, None, 0])))
+    for mid in ([7, None, 0], [8, None, 0], [3, None, 0], [0, 1, 0], [6, None, 0]):   # registration split around the arrival
+        out.append(dict(base, timeout=None, queue=[[3, 3, 0, 0, 42, 0]],
+                        actions=A([1, 1, 0], [9, 2, 0], mid, [10, None, 0], [6, None, 0], [9, 3, 0], [10, None, 0], [5, None, 0])))
+    for p in (1, 2, 3):                          # exception replies (one of class TimeoutError) and an undecodable reply, before the expiry
+        out.append(dict(base, timeout=40, queue=[[3, 3, 0, p, 11, 0]], actions=A([7, None, 0], [4, None, 0], [6, None, 0], [5, None, 0])))
+    for mode in (1, 3):
+        for a in (2, 3, 4):
+            out.append(dict(base, mode=mode, timeout=3, queue=[[a, a, 0, 0, 5, 0]], actions=[]))
+    return out
+
+
 def grid_cases():
     """boundary enumeration: timeout in {None,-1,0,3} x reply {none, before, at, after the expiry} x value/exception
-    x tie flag x traffic {none, ends before, straddles the expiry} x every 3-action word over a 7-letter menu subset"""
+    x tie flag x traffic {none, ends before, straddles the expiry} x action words"""
     out = []
-    menus = [[1, 1], [3, None], [5, None], [7, None], [6, None], [0, 3], [0, 4], [8, 0], [4, None]]
+    menus = [[1, 1, 0], [3, None, 0], [5, None, 0], [7, None, 0], [6, None, 0], [0, 3, 0], [0, 4, 0], [8, 0, 0], [4, None, 0]]
     words = []
     for a in menus:
         for b in menus:
-            words.append([a, b, [1, 2], [5, None], [3, None]])
+            words.append([a, b, [1, 2, 0], [5, None, 0], [3, None, 0]])
     for timeout in (None, -1, 0, 3):
         for rep in (None, 2, 3, 4):
             for exc in (0, 1):
@@ -560,9 +880,9 @@ def grid_cases():
                     for traffic in (None, [1, 1], [2, 2], [3, 2]):
                         q = []
                         if traffic:
-                            q.append([traffic[0], 1, traffic[1], 0])
+                            q.append([traffic[0], traffic[0], 1, traffic[1], 0, 0])
                         if rep is not None:
-                            q.append([rep, 0, exc, 41 + rep])
+                            q.append([rep, rep, 0, exc, 41 + rep, 0])
                         q.sort(key=lambda m: m[0])
                         for i, wd in enumerate(words):
                             if (i + len(out)) % 3:
@@ -573,11 +893,11 @@ def grid_cases():
 
 
 def nontrivial(case):
-    return (len(case["actions"]) >= 3 or case["mode"] == 1) and (bool(case["queue"]) or finite_of(case["timeout"]))
+    return (len(case["actions"]) >= 3 or case["mode"] in (1, 3)) and (bool(case["queue"]) or finite_of(case["timeout"]))
 
 
-def check_cases(ctx, model, cases):
-    outs = model.batch([case_sx(c) for c in cases]) if model else None
+def check_cases(ctx, model, cases, atomic_impl, flags):
+    outs = model.batch([case_sx(c, flags) for c in cases]) if model else None
     for i, case in enumerate(cases):
         seen = []
 
@@ -586,7 +906,7 @@ def check_cases(ctx, model, cases):
                 seen.append(sig)
                 ctx.violation(sig, case, observed=observed, expected=expected, what="%s (%s)" % (what, where))
         try:
-            trace, fin = impl_run(case, report, ctx.count)
+            trace, fin = impl_run(case, report, ctx.count, atomic_impl)
         except Exception as e:   # the implementation must not fail in any other way on these histories
             ctx.violation("unexpected-exception:" + type(e).__name__, case, observed=repr(e), expected="an observation",
                           what="the implementation raised something the property does not allow")
@@ -598,12 +918,25 @@ def check_cases(ctx, model, cases):
         ctx.count("timeout:" + ("none" if case["timeout"] is None else "negative" if case["timeout"] < 0 else
                                 "zero" if case["timeout"] == 0 else "positive"))
         for o, _ in trace:
-            ctx.count("obs:" + ["none", "bool", "value", "remote-exception", "timeout-error", "would-block-forever", "fuel"][o[0]])
+            ctx.count("obs:" + ["none", "bool", "value", "remote-exception", "timeout-error", "would-block-forever", "fuel",
+                                "callback-exception"][o[0]])
+        if seen:
+            ctx.count("oracle-failed:" + seen[0])
+        if any(m[1] > m[0] for m in case["queue"]):
+            ctx.count("with:fragmented-frame")
+        if any(m[5] for m in case["queue"]):
+            ctx.count("with:slow-reply")
+        if any(m[2] == 0 and m[3] == 3 for m in case["queue"]):
+            ctx.count("with:undecodable-reply")
+        if any(a[0] in (1, 9) and a[2] for a in case["actions"]):
+            ctx.count("with:raising-callback")
+        if any(a[0] == 9 for a in case["actions"]):
+            ctx.count("with:split-registration")
         if fin.get("ready"):
             ctx.count("final:got")
         elif fin.get("finite") and fin.get("now") >= fin.get("tmax"):
             ctx.count("final:expired")
-            if not fin.get("registered") and any(m[1] == 0 for m in case["queue"]):
+            if not fin.get("registered") and any(m[2] == 0 for m in case["queue"]):
                 ctx.count("late-reply-discarded")
         else:
             ctx.count("final:pending")
@@ -622,10 +955,53 @@ def check_cases(ctx, model, cases):
                 ctx.tie_broken("correspondence:final-state", "case %s model %r impl %r" % (key, mfin, fin))
 
 
-def check_timeouts(ctx, model, r, n):
+def check_reentrant(ctx):
+    """oracle only (not in the model): callbacks that touch the result while they run -- register another callback, read the
+    value, wait -- still give 'each once, in registration order'"""
+    for variant in range(4):
+        case = {"mode": 0, "tie": 0, "t0": 0, "timeout": 40, "send_dur": 0, "queue": [[3, 3, 0, 0, 42, 0]], "actions": [],
+                "reentrant": variant}
+        r = Run(case)
+        try:
+            r.start()
+            res, log = r.res, []
+
+            def inner(x):
+                log.append("inner")
+
+            def outer(x):
+                log.append("outer")
+                if variant == 0:
+                    x.add_callback(inner)
+                elif variant == 1:
+                    log.append(("value", x.value))
+                elif variant == 2:
+                    x.wait()
+                    log.append(("ready", x.ready))
+                else:
+                    x.add_callback(inner)
+                    x.add_callback(inner)
+
+            def last(x):
+                log.append("last")
+            res.add_callback(outer)
+            res.add_callback(last)
+            res.wait()
+            want = {0: ["outer", "inner", "last"], 1: ["outer", ("value", 42), "last"], 2: ["outer", ("ready", True), "last"],
+                    3: ["outer", "inner", "inner", "last"]}[variant]
+            ctx.case(("reentrant", variant), nontrivial=True)
+            ctx.count("reentrant-callback")
+            if log != want:
+                ctx.violation("callbacks:reentrant", case, observed=log, expected=want,
+                              what="a callback that uses its result while running broke 'each once, in registration order'")
+        finally:
+            r.close()
+
+
+def check_timeouts(ctx, model, r, n, triples=None):
     """the Timeout class alone: finite / tmax / expired / timeleft, and Timeout(Timeout) copies"""
-    cases = []
-    for _ in range(n):
+    cases = list(triples or [])
+    for _ in range(0 if triples else n):
         t = gen_timeout(r) if r.random() < 0.8 else r.choice([0, 1, -1, None])
         tc = r.choice([0, 5, 100])
         tq = tc + r.choice([0, 0, 1, 2, 3]) if t is None or t < 0 else tc + t + r.choice([-2, -1, 0, 0, 1, 2, 7])
@@ -644,7 +1020,6 @@ def check_timeouts(ctx, model, r, n):
             case = {"timeout_case": [t, tc, tq]}
             ctx.case(("tmo", t, tc, tq), nontrivial=t is not None, sample={"timeout": t, "created": tc, "queried": tq, "impl": got})
             ctx.count("timeout-class")
-            # oracle: the statement's reading of a timeout value
             fin = finite_of(t)
             want = [int(fin), tc + t if fin else 0, int(fin and tq >= tc + t), [max(0, tc + t - tq)] if fin else []]
             if got != want:
@@ -663,58 +1038,54 @@ def check_timeouts(ctx, model, r, n):
         rpyc.lib.time = saved
 
 
-def run(ctx):
-    r = ctx.rng
+def setup(ctx):
     model = C.Model("async")
     model = model if model.available() else None
+    atomic_impl = probe_atomic()
+    flags = gen_flags()
+    ctx.coverage_extra["generated_facts"] = {"callbacks_isolated": bool(flags[0]), "add_callback_atomic": bool(flags[1]),
+                                             "implementation_appends_under_a_lock": bool(atomic_impl)}
+    if bool(flags[1]) != bool(atomic_impl):
+        ctx.tie_broken("correspondence:add_callback-atomicity", "translator says atomic=%r, the running code appends %s a lock"
+                       % (bool(flags[1]), "under" if atomic_impl else "without"))
+    return model, atomic_impl, flags
+
+
+def run(ctx):
+    r = ctx.rng
+    model, atomic_impl, flags = setup(ctx)
     ctx.coverage_extra["rule"] = (
-        "histories = (how the result is created: async_request(timeout) / timed(proxy, timeout) / sync_request with configured timeout; "
-        "channel script of (arrival tick, reply value|reply exception|unrelated request with a dispatch duration|stray reply), sorted "
-        "mostly, duplicates and unsorted now and then; tie flag; send duration; up to 12 (quick) / 60 (thorough) caller actions out of "
-        "advance, add_callback, set_expiry, ready, error, expired, value, wait, serve), timeouts None/0/negative/positive, arrivals "
-        "placed at expiry-4..expiry+5 with weight on -1/0/+1; plus a boundary grid (timeout x reply position x tie x traffic x action "
-        "words) and the Timeout class alone; non-trivial = at least 3 actions (or a sync request) and a message or a finite timeout; "
-        "distinct by the whole case")
-    cases = grid_cases()
-    if ctx.quick:
-        cases = cases[::2]
+        "histories = (how the result is created: async_request(timeout) / timed(proxy, timeout) / conn.sync_request / a synchronous "
+        "proxy operation with configured timeout; stream script of (first-byte tick, completion tick, reply value|ValueError|TimeoutError "
+        "reply with an unboxing duration|unrelated request with a dispatch duration|stray reply), sorted mostly, duplicates and unsorted "
+        "now and then, 10% fragmented frames, 15% slow replies; tie flag; send duration; up to 12 (quick) / 60 (thorough) caller actions "
+        "out of advance, add_callback (15% raising), add_callback split over a second thread, set_expiry, ready, error, expired, value, "
+        "wait, serve), timeouts None/0/negative/positive, arrivals placed at expiry-4..expiry+5 with weight on -1/0/+1; plus directed "
+        "cases for every finding, a boundary grid (timeout x reply position x tie x traffic x action words), re-entrant callbacks "
+        "(oracle only) and the Timeout class alone; non-trivial = at least 3 actions (or a sync request) and a message or a finite "
+        "timeout; distinct by the whole case")
+    cases = directed_cases() + grid_cases()[::(2 if ctx.quick else 1)]
     n = 2500 if ctx.quick else 100000
     maxa = 12 if ctx.quick else 60
     for i in range(n):
         cases.append(gen_case(r, maxa if i % 4 else 6))
+    if not DECODE_FAILURE_DELIVERED:       # the older _dispatch lets a decode failure escape the serving loop: outside the model
+        for c in cases:
+            for m in c["queue"]:
+                if m[2] == 0 and m[3] == 3:
+                    m[3] = 1
     for i in range(0, len(cases), 20000):
-        check_cases(ctx, model, cases[i:i + 20000])
+        check_cases(ctx, model, cases[i:i + 20000], atomic_impl, flags)
+    check_reentrant(ctx)
     check_timeouts(ctx, model, r, 400 if ctx.quick else 5000)
 
 
 def replay(ctx, rep):
     case = rep["case"] or {}
-    model = C.Model("async")
-    model = model if model.available() else None
+    model, atomic_impl, flags = setup(ctx)
     if "timeout_case" in case:
-        t, tc, tq = case["timeout_case"]
-
-        class One(object):
-            def random(self): return 0.0
-            def choice(self, l): return l[0]
-        # re-evaluate exactly this triple
-        outs = model.batch([["tmo", opt_sx(t), tc, tq]]) if model else None
-        saved = rpyc.lib.time
-        try:
-            clk = Clock(tc)
-            rpyc.lib.time = clk
-            tt = Timeout(real_timeout(t))
-            clk.tick = tq
-            tl = tt.timeleft()
-            got = [int(bool(tt.finite)), to_tick(tt.tmax) if tt.finite else 0, int(bool(tt.expired())), [] if tl is None else [tl / TICK]]
-            fin = finite_of(t)
-            want = [int(fin), tc + t if fin else 0, int(fin and tq >= tc + t), [max(0, tc + t - tq)] if fin else []]
-            ctx.case(("tmo", t, tc, tq))
-            if got != want:
-                ctx.violation("timeout-class:" + ("finite" if got[0] != want[0] else "tmax" if got[1] != want[1] else
-                                                  "expired" if got[2] != want[2] else "timeleft"),
-                              case, observed=got, expected=want, what="Timeout(%r) created at %d, asked at %d" % (t, tc, tq))
-        finally:
-            rpyc.lib.time = saved
-        return
-    check_cases(ctx, model, [case])
+        check_timeouts(ctx, model, ctx.rng, 0, [tuple(case["timeout_case"])])
+    elif "reentrant" in case:
+        check_reentrant(ctx)
+    else:
+        check_cases(ctx, model, [case], atomic_impl, flags)
